@@ -520,6 +520,18 @@ func (p *Parser) evaluateVarNames() ([]lexer.Token, error) {
 	return nameTokens, nil
 }
 
+// calledFunction returns how many values the expression delivers if it is a (parenthesized)
+// function call and the name of the function. For all other expressions the length is -1.
+func calledFunction(expr Expression) (int, string) {
+	for expr.StatementType() == STATEMENT_TYPE_GROUP {
+		expr = expr.(Group).Child()
+	}
+	if call, isCall := expr.(FunctionCall); isCall {
+		return len(call.ReturnTypes()), call.Name()
+	}
+	return -1, ""
+}
+
 func (p *Parser) evaluateValues(ctx context) (evaluatedValues, error) {
 	expressions := []Expression{}
 
@@ -532,29 +544,23 @@ func (p *Parser) evaluateValues(ctx context) (evaluatedValues, error) {
 		}
 		expressions = append(expressions, expr)
 		nextToken := p.peek()
-		returnValuesLength := -1
-		funcName := ""
+		returnValuesLength, funcName := calledFunction(expr)
 
 		// If expression is a function, check if it returns a value.
-		if expr.StatementType() == STATEMENT_TYPE_FUNCTION_CALL {
-			call := expr.(FunctionCall)
-			returnValuesLength = len(call.ReturnTypes())
-			funcName = call.Name()
+		if returnValuesLength == 0 {
+			return evaluatedValues{}, p.expectedError(fmt.Sprintf(`return value from function "%s"`, funcName), exprToken)
+		}
+		moreValues := nextToken.Type() == lexer.COMMA
 
-			if returnValuesLength == 0 {
-				return evaluatedValues{}, p.expectedError(fmt.Sprintf(`return value from function "%s"`, funcName), exprToken)
-			}
+		// If it's one of several values, function must only return one value.
+		if returnValuesLength > 1 && (moreValues || len(expressions) > 1) {
+			return evaluatedValues{}, p.expectedError(fmt.Sprintf(`only one return value from function "%s"`, funcName), exprToken)
 		}
 		// Check if other values follow.
-		if nextToken.Type() != lexer.COMMA {
+		if !moreValues {
 			break
 		}
 		p.eat() // Eat comma token.
-
-		// If other values follow, function must only return one value.
-		if returnValuesLength > 1 {
-			return evaluatedValues{}, p.expectedError(fmt.Sprintf(`only one return value from function "%s"`, funcName), exprToken)
-		}
 	}
 	return evaluatedValues{
 		values: expressions,
@@ -587,12 +593,19 @@ func (p *Parser) evaluateBuiltInFunction(tokenType lexer.TokenType, keyword stri
 			}
 
 			// A function without return values cannot be used as an argument.
-			if call, isCall := expr.(FunctionCall); isCall && len(call.ReturnTypes()) == 0 {
-				return nil, p.expectedError(fmt.Sprintf(`return value from function "%s"`, call.Name()), argToken)
+			returnValuesLength, funcName := calledFunction(expr)
+
+			if returnValuesLength == 0 {
+				return nil, p.expectedError(fmt.Sprintf(`return value from function "%s"`, funcName), argToken)
 			}
 			expressions = append(expressions, expr)
 			nextToken = p.peek()
 			nextTokenType := nextToken.Type()
+
+			// If it's one of several arguments, function must only return one value.
+			if returnValuesLength > 1 && (nextTokenType == lexer.COMMA || len(expressions) > 1) {
+				return nil, p.expectedError(fmt.Sprintf(`only one return value from function "%s"`, funcName), argToken)
+			}
 
 			if nextTokenType == lexer.COMMA {
 				p.eat()
